@@ -21,6 +21,7 @@ func VerifNewRepo(disk bool, cfg *config.CRLConfig) *Repository {
 func VerifNewCRL(name, issuer string, serials ...*big.Int) *VerifCRL { return newCRL(name, issuer, serials...) }
 func (c *VerifCRL) SetSigOK(ok bool)                              { c.sigOK = ok }
 func (c *VerifCRL) SetNeedsChain(b bool)                          { c.needsChain = b }
+func (c *VerifCRL) SetNeedsIssuerCA(b bool)                       { c.needsIssuerCA = b }
 func (c *VerifCRL) SetReadFailAfter(j int)                        { c.readFailAfter = j }
 func (c *VerifCRL) SetRejectAtEnd(b bool)                         { c.rejectAtEnd = b }
 func (c *VerifCRL) Listed(issuer string, s *big.Int) bool         { return listed(c, issuer, s) }
